@@ -16,7 +16,7 @@ Local Open Scope N_scope.
 
 Definition W_IL := inter_impl vec_impl.                 (* Intersection of leaves *)
 Definition W_UC := sum_impl W_IL vec_impl.              (* children of the union: Box<dyn Scorer> *)
-Definition W_U := union_impl W_UC.                      (* BufferedUnionScorer, shape of the current source *)
+Definition W_U := union_impl_g W_UC true.               (* BufferedUnionScorer, shape of the source BEFORE the fix of F134 (guard, no resync) *)
 Definition W_OC := sum_impl vec_impl W_U.               (* children of the outer intersection *)
 Definition W_x : list N := [1; 9000; 10005].
 Definition W_y : list N := [1; 9000; 50000; 50001].
@@ -29,8 +29,8 @@ Definition W_sem : list N := sem_inter [W_a; sem_union [sem_inter [W_x; W_y]; W_
 Example W_meaning : W_sem = [1; 10000].
 Proof. vm_compute. reflexivity. Qed.
 
-Example W_shape_is_current : union_guard = true.
-Proof. reflexivity. Qed.
+Example W_shape_is_current : union_guard = true /\ union_resync = true.
+Proof. split; reflexivity. Qed.
 
 Theorem union_over_intersection_refuted :
   exists prog, valid_prog W_sem prog /\ run (inter_impl W_OC) W_outer prog <> spec_run W_sem prog.
@@ -76,4 +76,13 @@ Definition F_outer : st (inter_impl F_OC) := i_new F_OC (inl (vec_of W_a)) F_uni
 
 Example W_repaired :
   run (inter_impl F_OC) F_outer [CAdvance; CAdvance; CAdvance] = spec_run W_sem [CAdvance; CAdvance; CAdvance].
+Proof. vm_compute. reflexivity. Qed.
+
+(* the shape read from the current source (F134 fixed: the missed children are re-synchronised, union_resync = true)
+   agrees with the meaning on the same witness *)
+Definition N_OC := sum_impl vec_impl (union_impl W_UC).
+Definition N_union : st N_OC := inr (u_build W_UC [inl (i_new vec_impl (vec_of W_x) (vec_of W_y) [] false); inr (vec_of W_z)]).
+Definition N_outer : st (inter_impl N_OC) := i_new N_OC (inl (vec_of W_a)) N_union [] false.
+Example W_current_source :
+  run (inter_impl N_OC) N_outer [CAdvance; CAdvance; CAdvance] = spec_run W_sem [CAdvance; CAdvance; CAdvance].
 Proof. vm_compute. reflexivity. Qed.
